@@ -26,3 +26,6 @@ def run(ctx, res):
     # from_char(to_char(b)) = b for every byte a string can hold, i.e. the maps of X-map and "a stored byte is never 0"
     textrules.rule_char_maps(prog, res)
     textrules.rule_witness_privacy(prog, res)
+    # Serialize goes through Deref<Target = str>: the byte vector of an ArrayString has to be valid UTF-8 whoever wrote it
+    import engine
+    textrules.rule_utf8_writers(prog, engine.Filtered(res, {"X-utf8"}, ("ArrayString", "text::ArrayString", "writers")))
